@@ -16,7 +16,8 @@ algorithms.
 import inspect
 
 from ufl.algorithms.map_integrands import map_integrands
-from ufl.classes import Variable, all_ufl_classes
+from ufl.classes import Variable
+from ufl.core.expr import Expr
 from ufl.core.ufl_type import UFLType
 
 
@@ -42,11 +43,19 @@ class Transformer:
         if variable_cache is None:
             variable_cache = {}
         self._variable_cache = variable_cache
+        self._build_handlers()
+        # Keep a stack of objects visit is called on, to ease
+        # backtracking
+        self._visit_stack = []
 
+    def _build_handlers(self):
+        """Build the typecode-indexed handler list for all currently registered types."""
         # Analyse class properties and cache handler data the
-        # first time this is run for a particular class
+        # first time this is run for a particular class. Cached data is
+        # discarded if UFL types have been registered since.
+        all_ufl_classes = Expr._ufl_all_classes_
         cache_data = Transformer._handlers_cache.get(type(self))
-        if not cache_data:
+        if not cache_data or len(cache_data) != len(all_ufl_classes):
             cache_data = [None] * len(all_ufl_classes)
             # For all UFL classes
             for classobject in all_ufl_classes:
@@ -75,9 +84,6 @@ class Transformer:
         # Build handler list for this particular class (get functions
         # bound to self)
         self._handlers = [(getattr(self, name), post) for (name, post) in cache_data]
-        # Keep a stack of objects visit is called on, to ease
-        # backtracking
-        self._visit_stack = []
 
     def print_visit_stack(self):
         """Print visit stack."""
@@ -100,7 +106,12 @@ class Transformer:
 
         # Get handler for the UFL class of o (type(o) may be an
         # external subclass of the actual UFL class)
-        h, visit_children_first = self._handlers[o._ufl_typecode_]
+        try:
+            h, visit_children_first = self._handlers[o._ufl_typecode_]
+        except IndexError:
+            # The type of o was registered after this object was created
+            self._build_handlers()
+            h, visit_children_first = self._handlers[o._ufl_typecode_]
 
         # Is this a handler that expects transformed children as
         # input?
